@@ -170,17 +170,17 @@ known("F13", ["C15"],
       ["bounded_only_failure", "bounded_result_not_in_unbounded"], "has_yield",
       case("C15", "known", "t0: spawn(1); Lock(m=0); CvWait(cv=0,m=0); NotifyAll(cv=0); Unlock(m=0); join(1) || t1: Yield; NotifyOne(cv=0)", x={"n": 2}))
 
-known("F6p", SCP,
-      "Arc: a decrement (drop) is only checked against the last decrement and an increment only against the last inspection, so "
-      "strong_count / get_mut / try_unwrap racing with a clone or drop in another thread is explored in one order only: "
-      "main: strong_count || t1 drops its handle yields only the count 2 (src/rt/arc.rs last_dependent_access)",
-      ["missing_outcome", "missed_leak"], "arc_inspect_race",
-      case("C11", "known", "t0: ArcClone(x=0,to=1); spawn(1); ArcCount(x=0); join(1) || t1: ArcDrop(x=0)", arc_owner=[0]))
 fixed("F14", ["C06", "C10"], "bebf2a3",
       "a block from loom::alloc::alloc that is still tracked when the execution is torn down (leaked, or live while the model panics) "
       "was dropped outside the model: the `Allocation leaked` report aborted the process instead of unwinding",
       ["process_abort", "missed_leak", "unexpected_panic"],
       case("C10", "corpus", "t0: spawn(1); Alloc(k=0) || t1: Yield"))
+
+fixed("F6p", ["C01", "C10", "C11"], "276c07b",
+      "Arc: strong_count / get_mut / try_unwrap racing with a clone or drop of another thread was explored in one order only "
+      "(main: strong_count || t1 drops its handle yielded only the count 2)",
+      ["missing_outcome", "missed_leak"],
+      case("C11", "corpus", "t0: ArcClone(x=0,to=1); spawn(1); ArcCount(x=0); join(1) || t1: ArcDrop(x=0)", arc_owner=[0]))
 
 if __name__ == "__main__":
     out = os.path.join(os.path.dirname(os.path.abspath(__file__)), "..", "known_findings.json")
